@@ -71,6 +71,7 @@ type simReader struct {
 	f      *simFile
 	off    int64
 	closed bool
+	grew   bool
 }
 
 func (r *simReader) Read(p []byte) (int, error) {
@@ -88,7 +89,7 @@ func (r *simReader) Read(p []byte) (int, error) {
 		return 0, io.EOF
 	}
 	n := int64(len(p))
-	if f.chunk > 0 && n > int64(f.chunk) {
+	if f.chunk > 0 && !f.virtual && n > int64(f.chunk) {
 		n = int64(f.chunk)
 	}
 	if n > total-r.off {
@@ -105,6 +106,10 @@ func (r *simReader) Read(p []byte) (int, error) {
 		copy(p, f.content[r.off:r.off+n])
 	}
 	r.off += n
+	if !f.virtual && r.off > f.size && !r.grew {
+		r.grew = true
+		f.stats.hit("grew") // more bytes delivered than Lstat reported
+	}
 	return int(n), nil
 }
 func (r *simReader) Close() error { r.closed = true; return nil }
@@ -128,6 +133,25 @@ var zipElems = []string{
 	"con", "CON.txt", "aux.h", "nul", "com1", "lpt9.x", "COM10", "...", ".", "..", "a.", ".hidden", "sp ace", "we!rd#$%&()+,-=@[]^_{}~", "100%", "a%20b",
 	"bad*name", "qu?", "back\\slash", "col:on", "tab\t", "\xff", "日本", "x~1", "-dash", "modules.txt", ".hg_archival.txt", ".git", ".svn", "sub", "v2", "api", "apiutil", "api_test", "Docs",
 	"q\"uote", "<lt", "pi|pe", "new\nline", "ünï", "२", "á", "README",
+}
+
+var zipBenignElems = []string{
+	"a", "b", "c", "pkg", "cmd", "x.go", "y.go", "main.go", "util.go", "README", "LICENSE", "docs", "internal", "vendor", "sub", "v2", "api", "apiutil",
+	"K", "é", "日本", "sp ace", "we!rd#$%&()+,-=@[]^_{}~", "100%", "go.mod", "modules.txt", "Ω", "ω", "Ω", "σ", "ς", "ǅ", "ǆ", "Pkg", "Docs", "data.json", "a.b.c", ".hidden", "x~1",
+}
+
+// zipPathStyle: adv is the chance (in 1/8) that the path is drawn from the fully adversarial alphabet
+// and may be unclean; otherwise it is a clean relative path over mostly well-formed names.
+func zipPathStyle(src *choice.Src, adv int) string {
+	if adv >= 8 || src.Bool(adv, 8) {
+		return zipPath(src)
+	}
+	n := src.Weighted(4, 5, 3, 1) + 1
+	var elems []string
+	for i := 0; i < n; i++ {
+		elems = append(elems, zipBenignElems[src.Intn(len(zipBenignElems))])
+	}
+	return strings.Join(elems, "/")
 }
 
 func zipPath(src *choice.Src) string {
@@ -193,7 +217,11 @@ type zipTree struct {
 }
 
 // genZipTree draws a source tree.
-func genZipTree(src *choice.Src, maxFiles int) *zipTree {
+func genZipTree(src *choice.Src, maxFiles int) *zipTree { return genZipTreeStyle(src, maxFiles, 8) }
+
+// genZipTreeStyle draws a source tree; adv/8 of the paths come from the adversarial alphabet and
+// irregular modes are correspondingly rare when adv is low.
+func genZipTreeStyle(src *choice.Src, maxFiles int, adv int) *zipTree {
 	t := &zipTree{stats: &zipIOStats{}}
 	n := src.Range(0, maxFiles)
 	gm := -1
@@ -201,8 +229,15 @@ func genZipTree(src *choice.Src, maxFiles int) *zipTree {
 		gm = src.Intn(len(zipGoVersions))
 	}
 	for i := 0; i < n; i++ {
-		f := &simFile{path: zipPath(src), mode: 0o644, readErr: -1, stats: t.stats}
-		switch src.Weighted(30, 2, 1, 1, 1) {
+		f := &simFile{path: zipPathStyle(src, adv), mode: 0o644, readErr: -1, stats: t.stats}
+		irregular := 2
+		if adv < 8 {
+			irregular = 0
+			if src.Bool(1, 12) {
+				irregular = 2
+			}
+		}
+		switch src.Weighted(30, irregular, irregular/2, irregular/2, irregular/2) {
 		case 1:
 			f.mode = os.ModeSymlink | 0o777
 		case 2:
